@@ -349,6 +349,9 @@ fn main() {
             let thorough = args.iter().any(|a| a == "--thorough");
             let t0 = std::time::Instant::now();
             let profile = arg_val(&args, "--profile").and_then(|p| Profile::parse(&p)).unwrap_or(spec.profile);
+            if let Some(k) = arg_val(&args, "--array-kind").and_then(|k| k.parse::<u8>().ok()) {
+                gen::FORCE_ARRAY_KIND.with(|c| c.set(Some(k)));
+            }
             let r = run::run_one(seed, profile, thorough, spec.mk, true);
             println!(
                 "seed {} events {} ok {} fail {} evals {} distinct {} hash {:016x} in {:?}",
